@@ -109,12 +109,20 @@ for di in range(ndumps):
             redirect = (NS.get(ns, "") + ":" if ns else "") + rng.choice(BASES[:4])
         pages.append({"title": title, "ns": ns, "redirect": redirect, "model": rng.choice(MODELS if rng.random() < 0.4 else MODELS[:1]),
                       "body": rng.choice(BODIES)})
+    if di == 0:
+        # deterministic: every body once as a template and once as a main-namespace page, every namespace selected
+        tl = NS[TEMPLATE_NS]
+        pages = [{"title": f"{tl}:B{i}", "ns": TEMPLATE_NS, "redirect": None, "model": "wikitext", "body": b}
+                 for i, b in enumerate(BODIES)]
+        pages += [{"title": f"B{i}", "ns": 0, "redirect": None, "model": "wikitext", "body": b} for i, b in enumerate(BODIES)]
     if rng.random() < 0.3:
         pages.append(dict(rng.choice(pages), body="second version"))       # duplicate title
     if rng.random() < 0.3:
         tl = NS[TEMPLATE_NS]
         pages.append({"title": f"{tl}:!", "ns": TEMPLATE_NS, "redirect": None, "model": "wikitext", "body": "custom bang"})
     selected = set(rng.sample(NSIDS, rng.randint(1, len(NSIDS))))
+    if di == 0:
+        selected = set(NSIDS)
     path = os.path.join(TMP, f"d{di % 4}.xml.bz2")
     make_dump(pages, path)
     with quiet_stdout():
